@@ -216,7 +216,7 @@ class Prog:
 
     # ------------------------------------------------------------------ write
     def write(self, fid=1, route='none', data_arrays=None, frames=None, valid=True, mustraise='', hc_breach='',
-              either=False, extras=None, fname=None, watch=False, prior=None, perm=None, **opts):
+              either=False, extras=None, fname=None, watch=False, prior=None, perm=None, same_dict=False, **opts):
         """data_arrays: channel ref -> array id for data given at write time (route dict/struct/h5)."""
         data_arrays = data_arrays or {}
         st = {'op': 'write', 'fid': fid, 'opts': dict(opts), 'valid': valid, 'mustraise': mustraise,
@@ -236,6 +236,8 @@ class Prog:
                 keys = list(m)
                 m = {keys[i]: m[keys[i]] for i in perm}
             st['data'] = {'route': route, 'map': m}
+            if same_dict:
+                st['data']['same_dict'] = True
         exp = []
         lfs = [l for l, f in self._lf_fid.items() if f == fid]
         for l in lfs:
